@@ -207,6 +207,7 @@ RunResult run_sched(const Plan &p, EventLog &log, RunStats &stats, Progress *pro
     for (int phase = 0; phase < 2; phase++) {
         bool concurrent = phase == 1;
         asim::reset_run((unsigned char)p.knob("fill", 0xA5), p.knob("realloc", 0) ? asim::RA_INPLACE : asim::RA_MOVE);
+    borrowed::reset_run();
         // hooks are installed before the tasks start (the documented condition)
         cJSON_Hooks h;
         if (cfg.hookcfg == HK_BOTH) { h.malloc_fn = asim::cust_malloc; h.free_fn = asim::cust_free; cJSON_InitHooks(&h); asim::set_epoch(asim::EP_BOTH); }
